@@ -335,8 +335,9 @@ LEVEL_TEXT = (
     "Exploration against a reference TLV parser written from the statement: tens of thousands (thorough: ~10^6) of "
     "generated blocks covering known/aliased/unknown indices, all four types, boundary lengths, duplicates, every "
     "terminator variant and the 128-byte User-Agent variants; settings_tuple, the three index views, raw/parsed/"
-    "pretty views, names and integer decoding are compared record by record, with the bounded-progress monitor "
-    "armed on the decoding loops."
+    "pretty views (all twelve option combinations of settings_map), names and integer decoding are compared record by "
+    "record, every block is also decoded through a caller-opened file object positioned at the block, with the "
+    "bounded-progress monitor armed on the decoding loops."
 )
 LEVEL_NOTE = "Held on the generated blocks; the frozen numbering table (vf/ref/tables.py) is the trusted statement of setting names."
 TECHNIQUE = "reference-model runtime monitor (independent TLV parser) + cross-view agreement assertions + sys.monitoring loop budget"
